@@ -203,7 +203,11 @@ func runPath(ld *loaded, s *Solver, c *Config, req Request) (res *PathResult) {
 				case engineError:
 					res.Status, res.Detail = "error", p.msg
 				default:
-					res.Status, res.Detail = "error", fmt.Sprintf("%v\n%s", x, debug.Stack())
+					at := ""
+					if e.curIns != nil {
+						at = fmt.Sprintf(" at instruction %s in %s (%s)", e.curIns, e.curIns.Parent(), ld.prog.Fset.Position(e.curIns.Pos()))
+					}
+					res.Status, res.Detail = "error", fmt.Sprintf("%v%s\n%s", x, at, debug.Stack())
 				}
 			}
 		}()
